@@ -1,4 +1,5 @@
 import Tpp.Lemmas.Step
+import Tpp.Lemmas.StatusQuery
 /-!
 C13 – state diffing never re-sends what is already in effect.
 
@@ -49,6 +50,14 @@ theorem C13_after_erase (beh : Behaviour) (s : TermState) (k : EraseKind) (e : E
   | some l =>
     have := hc l hl
     simp [step, changeToDefault, hl, defaultAttr, rawElement, elementCtl, changeCharset, changeAttribute, ha, this]
+
+/-- **a status query sent through `terminal::write` costs nothing afterwards**: the bytes go out unchanged, the library's
+    record is untouched, and it is still true of the terminal (`Agree`) – so the next element in the rendition in effect is
+    still just its glyph, the next move to the occupied cell still nothing (the clauses above apply unchanged).  The oracle
+    lets exactly these four byte strings through as in-domain raw writes. -/
+theorem C13_status_query (beh : Behaviour) (s : TermState) (vt : VT) (hA : Agree s vt) (q : List Byte) (hq : q ∈ statusQueries) :
+    (step beh s (.rawWrite q)).1 = s ∧ (step beh s (.rawWrite q)).2 = q ∧ Agree s (vt.feedAll q) :=
+  ⟨rfl, rfl, agree_statusQuery s vt hA q hq⟩
 
 -- non-vacuity: a concrete state with everything known
 example : (step {} { last := some { attr := { intensity := .bold } }, cursor := some ⟨3, 4⟩, visible := some false }
